@@ -33,6 +33,44 @@ func pauseCaseAck(fd *ast.FuncDecl) string {
 	return res
 }
 
+// pauseWhileIdle: the select in which the worker waits for its next seed (a receive from its input channel) also has the
+// `<-controlChans.PauseCh` case and a `ctx.Done()` case — an idle worker sees a pause (and a stop) at once.
+func pauseWhileIdle(fd *ast.FuncDecl) bool {
+	if fd == nil {
+		return false
+	}
+	found := false
+	for _, n := range allNodes(fd) {
+		sel, ok := n.(*ast.SelectStmt)
+		if !ok {
+			continue
+		}
+		work, pauseCase, done := false, false, false
+		for _, c := range sel.Body.List {
+			cc, ok := c.(*ast.CommClause)
+			if !ok || cc.Comm == nil {
+				continue
+			}
+			t := strings.ReplaceAll(src(cc.Comm), " ", "")
+			switch {
+			case strings.Contains(t, "<-controlChans.PauseCh"):
+				pauseCase = true
+			case strings.Contains(t, ".Done()"):
+				done = true
+			case strings.Contains(t, "nputCh") && strings.Contains(t, "<-"):
+				work = true
+			}
+		}
+		if work {
+			if !(pauseCase && done) {
+				return false
+			}
+			found = true
+		}
+	}
+	return found
+}
+
 func extractPause() {
 	s := newSection("Pause")
 	const file = "internal/pkg/controler/pause/pause.go"
@@ -71,6 +109,7 @@ func extractPause() {
 		fd := fn(w.file, w.recv)
 		s.str(w.name+"Ack", pauseCaseAck(fd), true)
 		ws := strings.ReplaceAll(src(fd), " ", "")
+		s.boolean(w.name+"ListensWhileIdle", pauseWhileIdle(fd))
 		s.boolean(w.name+"SubscribesAndDefersUnsubscribe", strings.Contains(ws, "controlChans:=pause.Subscribe()deferpause.Unsubscribe(controlChans)"))
 	}
 }
